@@ -63,7 +63,8 @@ func (store *Store) accountQueryContext(qb query.Builder, q GetAccountsQuery) (s
 			}
 			switch address := value.(type) {
 			case string:
-				return filterAccountAddress(address, "accounts.address"), nil, nil
+				filter, args := filterAccountAddress(address, "accounts.address")
+				return filter, args, nil
 			default:
 				return "", nil, newErrInvalidQuery("unexpected type %T for column 'address'", address)
 			}
